@@ -18,6 +18,14 @@ REPLAY = _OUT / 'replay'
 KNOWN = VERIF / 'known_findings.json'
 
 
+STANDING = [
+    'A1: the API summary tables of the checker describe pandas / NumPy / scikit-learn / statsmodels / matplotlib '
+    'correctly (which calls mutate in place, return new objects, consume the global RNG, write rcParams, ...)',
+    'A3: Python semantics of the supported AST subset as encoded in sa/symexec.py (an unsupported construct is an '
+    'ANALYSIS-ERROR, never a pass)',
+]
+
+
 def norm_stmt(node_or_text) -> str:
     """Statement text normalised for keys: unparsed AST, whitespace collapsed (never line numbers)."""
     if isinstance(node_or_text, ast.AST):
@@ -154,7 +162,7 @@ class Ctx:
                 'exhaustive': bool(self.extra.pop('exhaustive', False)),
                 **self.extra,
             },
-            'assumptions': self.assumptions,
+            'assumptions': self.assumptions + STANDING,
             'wall_s': round(time.time() - self.t0, 3),
             'violations': len(viol),
         }
